@@ -331,11 +331,17 @@ class RedlineEngine:
 
         # 1. Inline Logic
         first_line = lines[0]
-        ins_elem = self._track_insert_inline(first_line, anchor_run, suppress_inherited=suppress_inherited)
-
         remaining_lines = lines[1:]
         if remaining_lines and remaining_lines[-1] == "":
             remaining_lines.pop()
+
+        # A text that starts with a line break has an empty first line: it must not leave an empty
+        # w:ins behind (a comment anchored on it would be invisible); the new paragraphs carry
+        # the comment themselves.
+        blocks_only = first_line == "" and bool(remaining_lines) and anchor_run is not None
+        ins_elem = None
+        if not blocks_only:
+            ins_elem = self._track_insert_inline(first_line, anchor_run, suppress_inherited=suppress_inherited)
 
         if remaining_lines:
             if not anchor_run:
@@ -357,6 +363,7 @@ class RedlineEngine:
             except ValueError:
                 return ins_elem
 
+            created = []
             for i, line_text in enumerate(remaining_lines):
                 clean_text, style_name = self._parse_markdown_style(line_text)
                 new_p = create_element("w:p")
@@ -382,6 +389,15 @@ class RedlineEngine:
 
                 new_p.append(new_ins)
                 parent_body.insert(p_index + 1 + i, new_p)
+                created.append((new_p, new_ins))
+
+            if blocks_only and comment and created:
+                start_p, start_ins = created[0]
+                end_p, end_ins = created[-1]
+                if start_p is end_p:
+                    self._attach_comment(start_p, start_ins, start_ins, comment)
+                else:
+                    self._attach_comment_spanning(start_p, start_ins, end_p, end_ins, comment)
 
         return ins_elem
 
